@@ -166,6 +166,20 @@ func (t *fnTr) kindOfType(ty types.Type) string {
 		}
 		return "tok"
 	case *types.Signature:
+		if t.handler && u.Results().Len() == 1 && t.kindOfType(u.Results().At(0).Type()) == "bool" && u.Params().Len() >= 1 && !u.Variadic() {
+			var ks []string
+			for i := 0; i < u.Params().Len(); i++ {
+				k := t.kindOfType(u.Params().At(i).Type())
+				if k != "vmap" && k != "err" && k != "str" {
+					return "tok"
+				}
+				if k == "err" {
+					k = "errc" // a non-nil error: its class
+				}
+				ks = append(ks, k)
+			}
+			return "cb:" + strings.Join(ks, ",")
+		}
 		return "tok"
 	}
 	return ""
@@ -178,6 +192,19 @@ func isArrayType(ty types.Type) bool {
 
 func fnCoqType(k string) string {
 	switch {
+	case k == "hstate":
+		return "hstate"
+	case k == "errc":
+		return "err"
+	case k == "vmapn":
+		return "(option entries)"
+	case strings.HasPrefix(k, "cb:"):
+		// a handler function value: the handlers' state goes in and comes back with the bool
+		out := "(hstate"
+		for _, a := range strings.Split(k[3:], ",") {
+			out += " -> " + fnCoqType(a)
+		}
+		return out + " -> (bool * hstate))"
 	case k == "putmap":
 		return "(entries -> entries)"
 	case k == "nat":
@@ -240,6 +267,8 @@ func fnCoqType(k string) string {
 
 func fnZero(k string) string {
 	switch {
+	case k == "vmapn":
+		return "None"
 	case k == "putmap":
 		return "(fun x_ : entries => x_)"
 	case k == "nat":
@@ -298,6 +327,8 @@ type fnTr struct {
 	topEnd       func() string // what falling off the end of the function body is
 	qname        string        // the function being translated, Recv.Name for methods
 	cursor       bool          // cursor mode (cursorFuncs): see cursor.go
+	handler      bool          // handler mode (handlerFuncs): see handlers.go
+	hst          *lvar         // handler mode: the handlers' state, threaded through every handler call
 	wb           bool          // write-back mode (inout.go, wb.go): in-place updates of a value tree
 	nextRebuild  *rebuildSpec  // consumed by the next loop(): the collection it ranges over is rebuilt
 	wbAfterCall  []*lvar       // set by selfArgs: the locals that received the in-out results of the recursive call
@@ -647,6 +678,24 @@ func (t *fnTr) expr(e ast.Expr) string {
 		k := t.kindOfExpr(x.X)
 		if k == "nil" {
 			k = t.kindOfExpr(x.Y)
+		}
+		if (x.Op == token.EQL || x.Op == token.NEQ) && t.handler {
+			// m != nil / m == nil on a Map that a reader function returned (nil-aware: option)
+			var me ast.Expr
+			if t.p.info.Types[x.Y].IsNil() {
+				me = x.X
+			} else if t.p.info.Types[x.X].IsNil() {
+				me = x.Y
+			}
+			if me != nil {
+				if ml := t.lvarOf(me); ml != nil && ml.kind == "vmapn" {
+					r := "(match " + ml.name + " with Some _ => true | None => false end)"
+					if x.Op == token.EQL {
+						return "(negb " + r + ")"
+					}
+					return r
+				}
+			}
 		}
 		if x.Op == token.EQL || x.Op == token.NEQ {
 			// reflect.ValueOf(v).Kind() == reflect.Map / reflect.Struct for an interface{} value of the universe
@@ -1488,7 +1537,12 @@ func (t *fnTr) externCall(x *ast.CallExpr) (*extCall, bool) {
 		rk := ec.results[0]
 		rty = "(" + fnCoqType(rk) + " * " + outs + ")"
 	case len(ec.stateOut) > 0 && len(ec.outArgs) == 0:
+		if t.handler && len(ec.results) >= 2 && ec.results[0] == "vmap" {
+			ec.results[0] = "vmapn" // the Map may be nil: the caller tests it
+		}
 		switch {
+		case t.handler && len(ec.results) == 2 && ec.results[1] == "err" && ec.results[0] == "vmapn":
+			ec.rich, rty = "pair", "("+fnCoqType(ec.results[0])+" * (option err))"
 		case len(ec.results) == 2 && ec.results[1] == "err" && strings.HasPrefix(ec.results[0], "ptr:"):
 			ec.rich, rty = "pair", "("+fnCoqType(ec.results[0])+" * (option err))"
 		case len(ec.results) == 2 && ec.results[1] == "err":
@@ -1542,6 +1596,9 @@ func (t *fnTr) externCall(x *ast.CallExpr) (*extCall, bool) {
 	}
 	if ec.rich == "optpair" {
 		name += "_pair" // the same callee seen as res T by the callers that do not use the value beside an error
+	}
+	if t.handler && len(ec.results) >= 2 && ec.results[0] == "vmapn" {
+		name += "_nil" // the same callee with its Map result nil-aware (option)
 	}
 	typ := strings.Join(append(tys, rty), " -> ")
 	found := false
@@ -1909,6 +1966,21 @@ func (t *fnTr) assigned(list []ast.Stmt) []*lvar {
 						if se, ok := c.Fun.(*ast.SelectorExpr); ok && (se.Sel.Name == "Token" || se.Sel.Name == "RawToken") && len(c.Args) == 0 {
 							if dl := t.lvarOf(se.X); dl != nil && dl.kind == "xdecoder" {
 								add(dl)
+							}
+						}
+						if t.isPkgFunc(c) && !t.isSelfCall(c) {
+							// a package function that reads from a reader / decoder handed to it
+							for _, a := range c.Args {
+								if al := t.lvarOf(a); al != nil && (al.kind == "reader" || al.kind == "xdecoder") {
+									add(al)
+								}
+							}
+						}
+						if t.handler && t.hst != nil {
+							if fid, ok := c.Fun.(*ast.Ident); ok {
+								if fl := t.locals[t.p.info.Uses[fid]]; fl != nil && strings.HasPrefix(fl.kind, "cb:") {
+									add(t.hst)
+								}
 							}
 						}
 						if !t.isSelfCall(c) && t.calleeThreads(c) {
@@ -3017,6 +3089,18 @@ func (t *fnTr) stmts(list []ast.Stmt, end func() string) string {
 			}
 		}
 		if ok {
+			if pk, nm, isPkg := t.pkgCall(c); isPkg && pk == "time" && nm == "Sleep" && t.handler {
+				return next() // waiting changes no value
+			}
+		}
+		if u, isU := x.X.(*ast.UnaryExpr); isU && u.Op == token.ARROW && t.handler {
+			if uc, isC := u.X.(*ast.CallExpr); isC {
+				if pk, nm, isPkg := t.pkgCall(uc); isPkg && pk == "time" && nm == "After" {
+					return next() // <-time.After(d): waiting changes no value
+				}
+			}
+		}
+		if ok {
 			if pk, nm, isPkg := t.pkgCall(c); isPkg && pk == "strings" && (nm == "TrimSpace" || nm == "ToLower" || nm == "ToUpper" || nm == "Trim") {
 				// a pure, total library function called with its result discarded: only its arguments are evaluated
 				mark := len(t.guards)
@@ -3311,6 +3395,36 @@ func (t *fnTr) assign(x *ast.AssignStmt, next func() string) string {
 		}
 		t.unsupported(x, "two-value assignment form")
 	}
+	if len(x.Lhs) == 3 && len(x.Rhs) == 1 && define {
+		// m, raw, err := f(rdr) with f a package function that reads from the reader
+		if c, isCall := x.Rhs[0].(*ast.CallExpr); isCall {
+			mark := len(t.guards)
+			if ec, ok := t.externCall(c); ok && ec.rich == "triple" && len(ec.stateOut) > 0 {
+				var names []string
+				for i, l := range x.Lhs {
+					id, ok := l.(*ast.Ident)
+					if !ok {
+						t.unsupported(x, "three-value assignment form")
+					}
+					k := ec.results[i]
+					if k == "err" {
+						k = "errv"
+					}
+					if id.Name == "_" {
+						names = append(names, "_")
+						continue
+					}
+					obj := t.p.info.Defs[id]
+					if obj == nil {
+						t.unsupported(x, "re-declaration in a three-value :=")
+					}
+					names = append(names, t.newLocal(obj, id.Name, k).name)
+				}
+				return t.wrap(mark, "match "+ec.term+" with None => Crash | Some (("+strings.Join(names, ", ")+"), "+tuplePat(ec.stateOut)+") =>\n  "+next()+" end")
+			}
+		}
+		t.unsupported(x, "three-value assignment form")
+	}
 	if len(x.Lhs) == len(x.Rhs) && len(x.Lhs) > 1 && !define {
 		// a, b = e1, e2 on plain locals: all right-hand sides are evaluated first
 		mark := len(t.guards)
@@ -3361,6 +3475,11 @@ func (t *fnTr) assign(x *ast.AssignStmt, next func() string) string {
 			rp = "'(" + vn + ", " + t.retState() + ")"
 		}
 		return t.wrap(mark, "bindr ("+fnPrefix+t.self.Name()+" fuel_ st "+strings.Join(args, " ")+")\n  (fun "+rp+" =>\n  "+next()+")")
+	}
+	if c, isCall := x.Rhs[0].(*ast.CallExpr); isCall && t.handler {
+		if out, done := t.handlerCall(x, c, next); done {
+			return out
+		}
 	}
 	if c, isCall := x.Rhs[0].(*ast.CallExpr); isCall && !t.isSelfCall(c) && t.calleeThreads(c) {
 		// err = f(..., b, ..., p) with b a writer local / p a struct local the callee updates: the result comes back together
@@ -3840,6 +3959,8 @@ func (t *fnTr) assign(x *ast.AssignStmt, next func() string) string {
 			val = t.boxVal(x.Rhs[0])
 		case t.p.info.Types[x.Rhs[0]].IsNil() && lv.kind == "errv":
 			val = "None" // err = nil
+		case lv.kind == "errv" && func() bool { _, ok := t.errExpr(x.Rhs[0]); return ok }():
+			val, _ = t.errExpr(x.Rhs[0]) // err = fmt.Errorf(...) / errors.New(...): a new error value (its class)
 		case t.p.info.Types[x.Rhs[0]].IsNil() && (lv.kind == "vlist" || lv.kind == "strs" || lv.kind == "vmap"):
 			val = fnZero(lv.kind) // a nil slice / map and an empty one are the same model value
 			if lv.nilFlag != nil {
@@ -4897,6 +5018,19 @@ func (t *fnTr) forStmt(x *ast.ForStmt, rest []ast.Stmt, end func() string) strin
 				}
 			}
 		}
+		handlerLoop := false
+		if !isRead && t.handler && first != nil && len(first.Rhs) == 1 && rl != nil && rl.kind == "reader" {
+			// for { m, err := f(rdr) ... } with f a package function reading from the reader parameter: the fuel is 2 + the length
+			// of the schedule (a pass that neither consumes an event nor leaves the loop exhausts it: Crash, which the theorems exclude
+			// by what they assume of f)
+			if c, ok := first.Rhs[0].(*ast.CallExpr); ok && t.isPkgFunc(c) {
+				for _, a := range c.Args {
+					if t.lvarOf(a) == rl {
+						isRead, handlerLoop = true, true
+					}
+				}
+			}
+		}
 		if !isRead {
 			t.unsupported(x, "unbounded for loop that does not start with a Read on the io.Reader parameter")
 		}
@@ -4912,6 +5046,9 @@ func (t *fnTr) forStmt(x *ast.ForStmt, rest []ast.Stmt, end func() string) strin
 		t.inLoop, t.loopEnd, t.breakEnd = savedIn, savedEnd, savedBreak
 		st := tupleType(as)
 		fuelOf := "(length " + rl.name + ")"
+		if handlerLoop {
+			fuelOf = "(S (length " + rl.name + "))"
+		}
 		if rl.kind == "xdecoder" {
 			fuelOf = "(length (fst " + rl.name + "))" // every iteration consumes a token, or returns at the end of the stream
 		}
@@ -5148,7 +5285,7 @@ func constTable(p *pkgInfo, vs *ast.ValueSpec, i int) (string, bool) {
 
 // the functions translated into Pure_gen.v ("Recv.Method" for methods)
 var pureFuncs = []string{"cast", "escapeChars", "parsePath", "getSubKeyMap", "hasSubKeys", "Map.PathForKeyShortest", "valuesForKeyPath", "hasKey", "hasKeyPath", "getLeafNodes",
-	"Map.ValuesForKey", "Map.oldValuesForPath", "Map.ValuesForPath", "Map.LeafNodes", "getJson", "NewMapJsonReader", "NewMapJsonReaderRaw", "Map.Exists", "Map.ValueForPath", "Map.ValueForKey", "Map.LeafPaths", "Map.LeafValues", "valuesForArray", "Map.PathsForKey", "byteReader.ReadByte", "teeReader.ReadByte", "Maps.JsonString", "Maps.JsonStringIndent", "Maps.XmlString", "Maps.XmlStringIndent", "BeautifyXml", "Map.Copy", "Map.Json", "Map.Root", "NewMapXml", "NewMapXmlSeq", "lastKey", "xmlToMapParser", "xmlSeqToMapParser", "Map.JsonWriter", "Map.JsonWriterRaw", "Map.JsonIndentWriter", "Map.JsonIndentWriterRaw", "Map.XmlWriter", "Map.XmlIndentWriter", "MapSeq.XmlWriter", "MapSeq.XmlIndentWriter", "mapToXmlSeqIndent", "pretty.Indent", "pretty.Outdent", "elemListSeq.Less", "marshalMapToXmlIndent", "attrList.Less", "elemList.Less", "NewMapJson", "updateValueForKey", "updateValue", "updateValuesForKeyPath", "Map.UpdateValuesForPath", "prevValueByPath", "remove", "renameKey", "Map.Remove", "Map.RenameKey", "parentPath", "Map.SetValueForPath", "Map.Xml", "Map.XmlIndent", "MapSeq.Xml", "MapSeq.XmlIndent", "AnyXml", "AnyXmlIndent", "marshalJSON", "Map.JsonIndent", "Map.NewMap", "addNewVal", "copyMapShallow", "NewMapGob", "Map.Gob"}
+	"Map.ValuesForKey", "Map.oldValuesForPath", "Map.ValuesForPath", "Map.LeafNodes", "getJson", "NewMapJsonReader", "NewMapJsonReaderRaw", "Map.Exists", "Map.ValueForPath", "Map.ValueForKey", "Map.LeafPaths", "Map.LeafValues", "valuesForArray", "Map.PathsForKey", "byteReader.ReadByte", "teeReader.ReadByte", "Maps.JsonString", "Maps.JsonStringIndent", "Maps.XmlString", "Maps.XmlStringIndent", "BeautifyXml", "Map.Copy", "Map.Json", "Map.Root", "NewMapXml", "NewMapXmlSeq", "lastKey", "xmlToMapParser", "xmlSeqToMapParser", "Map.JsonWriter", "Map.JsonWriterRaw", "Map.JsonIndentWriter", "Map.JsonIndentWriterRaw", "Map.XmlWriter", "Map.XmlIndentWriter", "MapSeq.XmlWriter", "MapSeq.XmlIndentWriter", "mapToXmlSeqIndent", "pretty.Indent", "pretty.Outdent", "elemListSeq.Less", "marshalMapToXmlIndent", "attrList.Less", "elemList.Less", "NewMapJson", "updateValueForKey", "updateValue", "updateValuesForKeyPath", "Map.UpdateValuesForPath", "prevValueByPath", "remove", "renameKey", "Map.Remove", "Map.RenameKey", "parentPath", "Map.SetValueForPath", "Map.Xml", "Map.XmlIndent", "MapSeq.Xml", "MapSeq.XmlIndent", "AnyXml", "AnyXmlIndent", "marshalJSON", "Map.JsonIndent", "Map.NewMap", "addNewVal", "copyMapShallow", "NewMapGob", "Map.Gob", "HandleXmlReader", "HandleXmlReaderRaw", "HandleJsonReader", "HandleJsonReaderRaw"}
 
 // joinMode: functions translated in join mode (see branching): the statements after an if / switch are translated
 // once instead of into every branch.  The continuation-passing translation of the other functions is kept as it is
@@ -5301,6 +5438,7 @@ func genPure(p *pkgInfo) string {
 			t.sumJoin, t.curS, t.lenient = joinMode[qname], "unit", lenientFuncs[qname]
 			t.qname = qname
 			t.cursor = cursorFuncs[qname]
+			t.handler = handlerFuncs[qname]
 			t.io, t.wb, t.aliases = ioInfo, writeBackFuncs[qname], aliasGraph(p, fn)
 			if fo, ok := p.info.Defs[fn.Name].(*types.Func); ok && t.wb && ioInfo.lens[fo] {
 				t.lensRet = true
@@ -5366,6 +5504,10 @@ func genPure(p *pkgInfo) string {
 				if k == "" || k == "tok" {
 					t.unsupported(id, "parameter type "+obj.Type().String())
 				}
+				if strings.HasPrefix(k, "cb:") && t.hst == nil {
+					t.hst = &lvar{name: "p_hst", kind: "hstate", isState: true}
+					t.used["p_hst"] = 1
+				}
 				if strings.HasPrefix(k, "recs:") {
 					// a slice of (pointers to) structs, read only: field stores go through struct locals only
 					if _, ok := structs[k[5:]]; !ok {
@@ -5412,6 +5554,10 @@ func genPure(p *pkgInfo) string {
 				for _, id := range fld.Names {
 					addParam(id, false)
 				}
+			}
+			if t.hst != nil {
+				params += " (p_hst : hstate)"
+				t.state = append(t.state, t.hst)
 			}
 			if fn.Type.Results == nil {
 				if len(t.state) == 0 {
@@ -5505,6 +5651,9 @@ func genPure(p *pkgInfo) string {
 	}
 	// in alphabetical order: the order of the Section variables is the order of the corresponding arguments of the
 	// translated functions once the Section is closed, and must not depend on which function mentions a callee first
+	if strings.Contains(bodies.String(), "hstate") {
+		sb.WriteString("Variable hstate : Type.        (* the common state of the handler functions handed to the bulk handlers (handlers.go) *)\n")
+	}
 	sort.Slice(externs, func(i, j int) bool { return externs[i].name < externs[j].name })
 	for _, e := range externs {
 		fmt.Fprintf(&sb, "Variable %s : %s.        (* external call: another function of the package *)\n", e.name, e.typ)
